@@ -284,6 +284,12 @@ example : (fxInit.run fxReach [.op (.write 5 77), .syncFail, .op (.hdr 1 2 1)]).
 example : (fxInit.run fxReach [.op (.write 5 77), .syncFail, .op (.write 5 77), .op .sync,
     .op (.hdr 1 2 1), .op .sync]).isSome = true := by decide
 
+/-- the open-time max-size update with a rollback's truncate pending (relaxed header rule of `Cfg.step`) -/
+example : ((FCfg.ofCfg mxInit).run mxReach [.op (.trunc 6), .op (.hdr 1 2 0), .op .sync]).isSome = true := by decide
+/-- ... and when its sync fails: the lost truncate only makes pages >= 6 unknown, the restore follows -/
+example : ((FCfg.ofCfg mxInit).run mxReach [.op (.trunc 6), .op (.hdr 1 2 0), .syncFail, .restore 1 0 0,
+    .op .sync, .op (.write 8 1)]).isSome = true := by decide
+
 theorem fxInit_safe : FSafe fxReach fxInit (initCfg (fun _ => none)).durable :=
   fsafe_start fxReach _ (safe_init fxReach _ (by intro p hh h; simp [fxReach] at h))
 
